@@ -253,7 +253,10 @@ class Run:
                     if r.get("nontrivial", True):
                         self.distinct.add(hashlib.sha1(json.dumps(cs[ci], sort_keys=True).encode()).digest()[:8])
                     if len(self.samples) < 5 and r.get("nontrivial", True):
-                        self.samples.append({"case": cs[ci], "impl": r["impl"][:2]})
+                        smp = {"case": cs[ci], "impl": [x[:400] for x in r["impl"][:2]]}
+                        if r.get("sample") is not None:
+                            smp["what_was_run"] = r["sample"]
+                        self.samples.append(smp)
                     for s in r.get("stats", []):
                         self.stats[s] = self.stats.get(s, 0) + 1
                     for k, v in r.get("num", {}).items():
